@@ -196,6 +196,30 @@ def check_kernel(rep, f, add, find, arity):
         req = g.edge_required(c["id"], True, A["id"], assume)
         rep.check(req is True, "R3.2", "%s|cutoff-edge|%s" % (name, show(lhs)), "insertion only on the true edge of %s" % show(c),
                   "%s: %s is reachable without passing %s == true" % (name, add, show(c)), f.loc(c))
+    # --- "exactly the pairs below the cutoff": no further condition on the distance / connection vector gates the insertion
+    dist_names = {show(unwrap(c["lhs"])) for c in cmps} | {show(unwrap(c["rhs"])) for c in cmps}
+    dist_names = {x for x in dist_names if re.match(r"^[A-Za-z_]\w*$", x) and not x.endswith("cutoff_")}
+    for c in cmps:
+        d_ = resolve(f, defs, unwrap(c["lhs"]))
+        if d_.get("k") == "mcall" and (d_.get("callee") or "").endswith("::norm") and re.match(r"^[A-Za-z_]\w*$", show(unwrap(d_["obj"]))):
+            dist_names.add(show(unwrap(d_["obj"])))
+    cmp_ids = {c["id"] for c in cmps}
+    extra = []
+    for n in f.walk():
+        if n.get("k") not in ("binop", "mcall") or n["id"] in cmp_ids:
+            continue
+        if n.get("k") == "binop" and n.get("op") not in ("<", "<=", ">", ">=", "==", "!="):
+            continue
+        # a comparison on the distance, or a predicate called on the distance/vector itself (r.isZero()); the match callback and the
+        # creator only receive them as arguments and are handled by their own rules
+        toks = set(re.findall(r"[A-Za-z_]\w*", show(n) if n["k"] == "binop" else show(n.get("obj") or {})))
+        if not (toks & dist_names) or not g.cond_blocks(n["id"]):
+            continue
+        if any(g.edge_required(n["id"], v, A["id"], assume) is True for v in (True, False)):
+            extra.append(n)
+    rep.check(not extra, "R3.1", name + "|no-extra-distance-filter", "only the cutoff comparison tests the distance",
+              "%s: the insertion is additionally gated by %s on the distance/connection vector: pairs below the cutoff that fail it are not reported (e.g. two beads on the "
+              "same point or exactly one box vector apart have distance 0)" % (name, ", ".join("'%s'" % show(x) for x in extra)), f.loc(extra[0]) if extra else f.loc())
     centre = beads[0]
     want_pairs = {(beads[0], beads[1])} if arity == 2 else {(beads[0], beads[1]), (beads[0], beads[2])}
     got_pairs = {tuple(p) for p in tested_pairs}
